@@ -81,31 +81,32 @@ mod mac_basic__mrt;
 mod mac_basic__runpar;
 mod mac_capture__exppar;
 mod mac_gensym_disj__pari;
-mod rnd_core_01__ser;
-mod rnd_core_03__pari;
-mod rnd_core_06__par;
-mod rnd_core_09__ser;
-mod rnd_core_11__pari;
-mod rnd_core_14__par;
-mod rnd_core_17__ser;
-mod rnd_core_19__pari;
-mod rnd_core_22__par;
-mod rnd_core_25__ser;
-mod rnd_core_27__pari;
-mod rnd_core_30__par;
-mod rnd_agg_03__ser;
-mod rnd_agg_05__pari;
-mod rnd_agg_08__par;
-mod rnd_agg_11__ser;
-mod rnd_agg_13__pari;
-mod rnd_prec_01__par;
-mod rnd_prec_02__topar;
-mod rnd_prec_04__pari;
-mod rnd_prec_06__ser;
-mod rnd_prec_07__to;
-mod rnd_prea_01__par;
-mod rnd_prea_04__ser;
-mod rnd_prea_06__pari;
+mod stress_lat__ser;
+mod rnd_core_01__pari;
+mod rnd_core_04__par;
+mod rnd_core_07__ser;
+mod rnd_core_09__pari;
+mod rnd_core_12__par;
+mod rnd_core_15__ser;
+mod rnd_core_17__pari;
+mod rnd_core_20__par;
+mod rnd_core_23__ser;
+mod rnd_core_25__pari;
+mod rnd_core_28__par;
+mod rnd_agg_01__ser;
+mod rnd_agg_03__pari;
+mod rnd_agg_06__par;
+mod rnd_agg_09__ser;
+mod rnd_agg_11__pari;
+mod rnd_agg_14__par;
+mod rnd_prec_01__to;
+mod rnd_prec_03__par;
+mod rnd_prec_04__topar;
+mod rnd_prec_06__pari;
+mod rnd_prec_08__ser;
+mod rnd_prea_02__ser;
+mod rnd_prea_04__pari;
+mod rnd_prea_07__par;
 
 fn lookup(name: &str) -> fn() -> Box<dyn Driven> {
    match name {
@@ -182,31 +183,32 @@ fn lookup(name: &str) -> fn() -> Box<dyn Driven> {
       "mac_basic__runpar" => mac_basic__runpar::make,
       "mac_capture__exppar" => mac_capture__exppar::make,
       "mac_gensym_disj__pari" => mac_gensym_disj__pari::make,
-      "rnd_core_01__ser" => rnd_core_01__ser::make,
-      "rnd_core_03__pari" => rnd_core_03__pari::make,
-      "rnd_core_06__par" => rnd_core_06__par::make,
-      "rnd_core_09__ser" => rnd_core_09__ser::make,
-      "rnd_core_11__pari" => rnd_core_11__pari::make,
-      "rnd_core_14__par" => rnd_core_14__par::make,
-      "rnd_core_17__ser" => rnd_core_17__ser::make,
-      "rnd_core_19__pari" => rnd_core_19__pari::make,
-      "rnd_core_22__par" => rnd_core_22__par::make,
-      "rnd_core_25__ser" => rnd_core_25__ser::make,
-      "rnd_core_27__pari" => rnd_core_27__pari::make,
-      "rnd_core_30__par" => rnd_core_30__par::make,
-      "rnd_agg_03__ser" => rnd_agg_03__ser::make,
-      "rnd_agg_05__pari" => rnd_agg_05__pari::make,
-      "rnd_agg_08__par" => rnd_agg_08__par::make,
-      "rnd_agg_11__ser" => rnd_agg_11__ser::make,
-      "rnd_agg_13__pari" => rnd_agg_13__pari::make,
-      "rnd_prec_01__par" => rnd_prec_01__par::make,
-      "rnd_prec_02__topar" => rnd_prec_02__topar::make,
-      "rnd_prec_04__pari" => rnd_prec_04__pari::make,
-      "rnd_prec_06__ser" => rnd_prec_06__ser::make,
-      "rnd_prec_07__to" => rnd_prec_07__to::make,
-      "rnd_prea_01__par" => rnd_prea_01__par::make,
-      "rnd_prea_04__ser" => rnd_prea_04__ser::make,
-      "rnd_prea_06__pari" => rnd_prea_06__pari::make,
+      "stress_lat__ser" => stress_lat__ser::make,
+      "rnd_core_01__pari" => rnd_core_01__pari::make,
+      "rnd_core_04__par" => rnd_core_04__par::make,
+      "rnd_core_07__ser" => rnd_core_07__ser::make,
+      "rnd_core_09__pari" => rnd_core_09__pari::make,
+      "rnd_core_12__par" => rnd_core_12__par::make,
+      "rnd_core_15__ser" => rnd_core_15__ser::make,
+      "rnd_core_17__pari" => rnd_core_17__pari::make,
+      "rnd_core_20__par" => rnd_core_20__par::make,
+      "rnd_core_23__ser" => rnd_core_23__ser::make,
+      "rnd_core_25__pari" => rnd_core_25__pari::make,
+      "rnd_core_28__par" => rnd_core_28__par::make,
+      "rnd_agg_01__ser" => rnd_agg_01__ser::make,
+      "rnd_agg_03__pari" => rnd_agg_03__pari::make,
+      "rnd_agg_06__par" => rnd_agg_06__par::make,
+      "rnd_agg_09__ser" => rnd_agg_09__ser::make,
+      "rnd_agg_11__pari" => rnd_agg_11__pari::make,
+      "rnd_agg_14__par" => rnd_agg_14__par::make,
+      "rnd_prec_01__to" => rnd_prec_01__to::make,
+      "rnd_prec_03__par" => rnd_prec_03__par::make,
+      "rnd_prec_04__topar" => rnd_prec_04__topar::make,
+      "rnd_prec_06__pari" => rnd_prec_06__pari::make,
+      "rnd_prec_08__ser" => rnd_prec_08__ser::make,
+      "rnd_prea_02__ser" => rnd_prea_02__ser::make,
+      "rnd_prea_04__pari" => rnd_prea_04__pari::make,
+      "rnd_prea_07__par" => rnd_prea_07__par::make,
       _ => panic!("no such program variant in this shard: {}", name),
    }
 }
